@@ -2228,9 +2228,9 @@ class LogicalFile:
             data = {}
 
         if isinstance(data, dict):
-            self._data_dict = self._data_dict | data
+            # the data handed to this write is used for this write only (it is not kept in the logical file)
             data_object = DictDataWrapper(
-                self._data_dict,
+                self._data_dict | data,
                 mapping=fr.channel_name_mapping,
                 known_dtypes=fr.known_channel_dtypes_mapping,
                 from_idx=from_idx,
